@@ -128,10 +128,15 @@ where
         #[cfg(crux_verif)]
         crate::verif::point("core.process.loop");
 
-        while let Some(capability_event) = self.capability_events.receive() {
-            #[cfg(crux_verif)]
-            crate::verif::point("core.process.received");
+        loop {
+            // The event has to be taken off the channel while holding the model lock. If it is
+            // taken first, two threads running `process` can each take an event sent by the same
+            // task and then apply them in the opposite order. No lock is held while tasks are
+            // polled, so this can not deadlock.
             let mut model = self.model.write().expect("Model RwLock was poisoned.");
+            let Some(capability_event) = self.capability_events.receive() else {
+                break;
+            };
             let command = self
                 .app
                 .update(capability_event, &mut model, &self.capabilities);
